@@ -14,6 +14,8 @@ CFG = {'assumptions': ['the initial offset o is a multiple of 64 (the property s
                                    '/ MaxInt64, against the int64 model [widened]',
         'bitmap.TailBitmap/literal': '&bitmap.TailBitmap{Offset, Words} struct literal + Set/Compact/Get/Get1 (one '
                                      'whole history per case) [widened]',
+        'bitmap.TailBitmap/pair': 'two bitmap.NewTailBitmap objects alive in one process, Set/Compact/Get/Get1 '
+                                  'interleaved between them (shared package-level state) [two-object histories]',
         'bitmap.TailBitmap/words': 'history on NewTailBitmap, then TailBitmap.Get/Get1 vs '
                                    'bitmap.Get/Get1/SafeGet/SafeGet1 on the exported Words [widened]'},
  'rule': 'one case = one whole history on a fresh NewTailBitmap(o); exported Offset and Words and the result are '
@@ -35,5 +37,10 @@ CFG = {'assumptions': ['the initial offset o is a multiple of 64 (the property s
          'below, probe classes) when a stored 1 and a stored 0 were probed; words: non-trivial when a stored 1 and a '
          'stored 0 were read; int64: random and deterministic histories 1..6 words below the last word of the int64 '
          'range and at MinInt64 (sets below Offset down to MinInt64, probes at MinInt64/-1/0/MaxInt64-64, fills up to '
-         'the last word), key i64/(top|bottom, words, Compact, bulk)',
+         'the last word), key i64/(top|bottom, words, Compact, bulk); pair: two live objects, both filled in order '
+         'across the 1024-word reclaim threshold with an EMPTY tail at reclaim time (3 fill variants x 3 offset '
+         'pairs), then Sets and probes alternating between the objects, + random interleavings of two ordinary '
+         'histories; key pair/(bucket, words A, words B, both crossed the threshold) when each object had a stored 1 '
+         'and a stored 0 probed; the back-to-front fill of 1100 words (a run of more than 1024 complete words behind '
+         'an incomplete first word, then the completing Set, then a Set beyond the end) now runs in BOTH tiers',
  'shrink_s': 40}
